@@ -5,19 +5,19 @@
 package c17
 
 import (
-	"context"
+	"bufio"
 	"encoding/json"
 	"fmt"
 	"math"
+	"math/rand"
 	"os"
+	"os/exec"
 	"path/filepath"
-	"runtime"
-	"runtime/debug"
+	"regexp"
 	"strings"
+	"sync"
+	"syscall"
 	"time"
-
-	"github.com/streamingfast/dmetering"
-	"github.com/streamingfast/substreams/wasm/wazero"
 
 	pbssinternal "github.com/streamingfast/substreams/pb/sf/substreams/intern/v2"
 	pbsubstreamsrpc "github.com/streamingfast/substreams/pb/sf/substreams/rpc/v2"
@@ -28,7 +28,7 @@ import (
 	"verif/harness/fw"
 )
 
-const batch = 100
+const batchSize = 100
 
 var (
 	clientPatience = 500 * time.Millisecond
@@ -51,10 +51,10 @@ func init() {
 		Rule: "case = batch of 100 requests, alternately sf.substreams.rpc.v2.Request and sf.substreams.internal.v2.ProcessRangeRequest, from four families: (A) structurally arbitrary messages (every field free, 0..120 modules), " +
 			"(B) a well-formed request built by the harness with 1-3 structural mutations (absent kind / input oneof, dangling, self and cyclic references, duplicate / empty / invalid names, binary index out of range, extreme initial blocks, bogus store policies, bad cursors, start/stop relations, stage out of range, ...), " +
 			"(C) a well-formed request marshalled, mutated at byte level and unmarshalled again, (D) the well-formed request itself. Every message is passed through proto.Marshal/Unmarshal first, so it is one a client can put on the wire. " +
-			"Each message runs in a goroutine under a 20 s watchdog: tier1 = nil-Modules guard + service.ValidateTier1Request, then the REAL Tier1Service.blocks through service.TestNewService(...).TestBlocks (graph, request details, configs, pipeline, plan, Init, back-processing with a worker that fails every job, block source that delivers no block, OnStreamTerminated); " +
+			"Each case hands its batch to a child process (same binary), which runs each message in a goroutine under a 20 s watchdog and a live memory guard and reports one result per message; the worker judges the reports. tier1 = nil-Modules guard + service.ValidateTier1Request, then the REAL Tier1Service.blocks through service.TestNewService(...).TestBlocks (graph, request details, configs, pipeline, plan, Init, back-processing with a worker that fails every job, block source that delivers no block, OnStreamTerminated); " +
 			"requests with a negative start block or a cursor needing resolution (TestNewService has no head-block / cursor callbacks) run exec.NewOutputModuleGraph -> pipeline.BuildRequestDetails (stub callbacks, PRNG-chosen answers) -> ValidateRequestStartBlock -> configs -> plan.BuildTier1RequestPlan instead. " +
 			"tier2 = nil-Modules guard + service.ValidateTier2Request, then the REAL Tier2Service.processRange through service.TestNewServiceTier2(...).TestProcessRange (stores, graph, stage check, configs, GetExecutionPlan, pipeline New/Init/InitTier2Stores/BuildModuleExecutors with the default wazero runtime, no-block source, OnStreamTerminated). " +
-			"Violation: panic in a stage (signature = stage + innermost /repo function + normalized message), hang reproduced alone under a 60 s watchdog, heap or process memory growing by > 512 MiB in one stage for a message < 1 MiB, a stage returning neither a result nor an error, or a hand-minimised malformed witness of case 0 that is not rejected with an error. " +
+			"Violation: panic in a stage (signature = stage + innermost /repo function + normalized message), death of the child process while a message runs (panic in a goroutine started by the real code, fatal error), hang reproduced alone in a fresh child under a 60 s watchdog, heap or process memory growing by > 512 MiB while one message < 1 MiB runs (the guard ends the child at once), a stage returning neither a result nor an error, or a hand-minimised malformed witness of case 0 that is not rejected with an error. " +
 			"non-trivial = message that request validation accepted (so the service ran on it); distinct by hash of the wire bytes",
 		Assumptions: []string{
 			"only wire-representable messages are in scope (no nil element in a repeated field, no oneof wrapper holding a nil message): they cannot be produced by proto.Unmarshal",
@@ -62,7 +62,10 @@ func init() {
 			"tier2: StateStore / MergedBlocksStore are kept when they are memory:// URLs or use a scheme dstore does not know (error expected), and replaced by a fresh memory:// URL otherwise (local paths and cloud buckets are not opened); the metering plugin is the null emitter",
 			"no tier2 behind tier1: every parallel job fails at once, so a tier1 request that needs back-processing ends with that error; no block is delivered, so no module code runs (binaries of well-formed requests are valid empty WebAssembly modules)",
 			"segment size (tier1) and block type are server configuration: segment size in {1,10,100,1000}, never 0",
-			"after 2 confirmed hangs in one worker process no further message is run through the stage that hung (a hung goroutine cannot be killed)",
+			"the client goes away (request context cancelled) 500 ms after the request started, as any client may: this cuts short the real code's retry back-offs on a missing store file (a tier2 request for a later segment of a higher stage on an empty store); a request that outlives the client for any other reason makes the case inconclusive",
+			"block heights answered by the chain (recent final block, head block) are realistic (<= 123456): they are not request content",
+			"tier1 block source: clean end (io.EOF) only when at most 100000 blocks were left to stream, an error otherwise (a real source never ends cleanly that far before the stop block; OnStreamTerminated walks every store boundary up to the stop block)",
+			"after 2 hangs reproduced in one stage by one worker process, further time-outs in that stage are counted without being reproduced again",
 		},
 		Cases: func(tier, mode string) int {
 			if tier == "thorough" {
@@ -72,26 +75,8 @@ func init() {
 		},
 		CaseTimeout:   15 * time.Minute,
 		MinNontrivial: 2000,
-		Setup:         setup,
 		Run:           run,
 	})
-}
-
-func setup(tier, mode string) {
-	debug.SetMemoryLimit(math.MaxInt64)
-	os.Unsetenv("SUBSTREAMS_WASM_RUNTIME") // default runtime (wazero)
-	dmetering.RegisterNull()
-	scratch := os.Getenv("VH_SCRATCH")
-	if scratch == "" {
-		scratch, _ = os.MkdirTemp("", "vh-c17-")
-	}
-	if scratch != "" {
-		dir := filepath.Join(scratch, fmt.Sprintf("c17-%d", os.Getpid()))
-		if os.MkdirAll(dir, 0o755) == nil {
-			os.Chdir(dir) // nothing should be written through a relative path; if something is, it lands here
-			wazero.SetTempDir(dir)
-		}
-	}
 }
 
 type witness struct {
@@ -102,17 +87,12 @@ type witness struct {
 	Request   json.RawMessage `json:"request"`
 	WireSize  int             `json:"wire_bytes"`
 	Stack     string          `json:"stack,omitempty"`
-	Hung      string          `json:"goroutines_in_repo_code_at_timeout,omitempty"`
+	Hung      string          `json:"request_goroutine_at_timeout,omitempty"`
+	Stderr    string          `json:"child_stderr,omitempty"`
 	Reached   []string        `json:"stages_completed,omitempty"`
 }
 
-var (
-	confirmedHangs int
-	hungStages     = map[string]bool{}
-)
-
-func genEnv(c *fw.Case) t1env {
-	r := c.R
+func genEnv(r *rand.Rand) t1env {
 	// what the chain answers: realistic block heights only (the final / head block is not request content; with a final
 	// block of 2^64-1 tier1 would legitimately plan 10^16 segments of back-processing)
 	nums := []uint64{0, 5, 50, 999, 5000, 123456}
@@ -138,64 +118,65 @@ func toJSON(m proto.Message) json.RawMessage {
 	return b
 }
 
-// execute runs job under the watchdog. It returns the outcome, or the stage name where it hung. The context
-// handed to the job is cancelled once the job returned (or was given up), so that what the real services
-// started (scheduler, back-filler) stops.
-func execute(job func(ctx context.Context, o *outcome), timeout time.Duration) (*outcome, string) {
-	o := &outcome{}
-	o.cur.Store("start")
-	ctx, cancel := context.WithCancel(context.Background())
-	defer cancel()
-	// the client goes away after clientPatience, as any client may: this ends the real code's retry back-offs on a
-	// missing store file (1+1+2+3+5 s...) instead of sleeping through them; code that ignores the context is unaffected
-	away := time.AfterFunc(clientPatience, func() { o.clientWentAway.Store(true); cancel() })
-	defer away.Stop()
-	done := make(chan struct{})
-	go func() {
-		defer close(done)
-		job(ctx, o)
-	}()
-	t := time.NewTimer(timeout)
-	defer t.Stop()
-	select {
-	case <-done:
-		return o, ""
-	case <-t.C:
-		lastHangDump = goroutineDump()
-		return nil, o.cur.Load().(string)
-	}
-}
-
-var lastHangDump string
-
-// goroutineDump returns the stacks of the goroutines that are inside /repo code (what a hung request is doing).
-func goroutineDump() string {
-	buf := make([]byte, 4<<20)
-	buf = buf[:runtime.Stack(buf, true)]
-	var keep []string
-	for _, g := range strings.Split(string(buf), "\n\n") {
-		if strings.Contains(g, "streamingfast/substreams/") && !strings.Contains(g, "c17.goroutineDump") {
-			if len(g) > 2500 {
-				g = g[:2500] + "..."
-			}
-			keep = append(keep, g)
-		}
-	}
-	out := strings.Join(keep, "\n\n")
-	if len(out) > 20000 {
-		out = out[:20000] + "..."
-	}
-	return out
-}
-
 type item struct {
 	tier   int
 	family string
 	muts   []string
-	msg    proto.Message // nil when wire is given
-	wire   []byte
-	env    *t1env // nil: drawn from the PRNG
-	expect string // corpus only: "reject" = must be rejected with an error, "" = anything but a violation
+	msg    proto.Message // as generated (nil for wire-level mutations)
+	wire   []byte        // what goes over the wire
+	env    t1env         // tier1 only
+	expect string        // corpus only: "reject" = must be rejected with an error, "" = anything but a violation
+}
+
+func (it *item) decode() (proto.Message, error) {
+	if it.tier == 1 {
+		m := &pbsubstreamsrpc.Request{}
+		return m, proto.Unmarshal(it.wire, m)
+	}
+	m := &pbssinternal.ProcessRangeRequest{}
+	return m, proto.Unmarshal(it.wire, m)
+}
+
+// batch is the deterministic content of one case: the same in the worker and in its child process.
+type batch struct {
+	items  []item
+	counts map[string]int64
+}
+
+func buildBatch(r *rand.Rand, index int) *batch {
+	b := &batch{counts: map[string]int64{}}
+	var items []item
+	if index == 0 {
+		items = corpus()
+	}
+	for i := 0; i < batchSize; i++ {
+		it, ok := generate(r, b.counts, i)
+		env := genEnv(r) // always drawn, so that the PRNG stream does not depend on the message
+		if it.tier == 1 {
+			it.env = env
+		}
+		if ok {
+			items = append(items, it)
+		}
+	}
+	for _, it := range items {
+		b.counts["generated/"+it.family]++
+		// through the wire: what the server decodes is what a client can encode
+		if it.wire == nil {
+			w, err := proto.Marshal(it.msg)
+			if err != nil {
+				b.counts["not_encodable"]++
+				continue
+			}
+			it.wire = w
+		}
+		if _, err := it.decode(); err != nil {
+			b.counts["wire_mutation_undecodable"]++
+			continue
+		}
+		b.items = append(b.items, it)
+	}
+	return b
 }
 
 // corpus is a fixed list of hand-minimized messages, run at the start of case 0 of every run, so that each
@@ -205,7 +186,7 @@ func corpus() []item {
 	mapMod := func(name string, inputs ...*pbsubstreams.Module_Input) *pbsubstreams.Module {
 		return &pbsubstreams.Module{Name: name, Kind: kindMap(), Inputs: inputs, Output: &pbsubstreams.Module_Output{Type: "proto:my.Out"}}
 	}
-	plainEnv := &t1env{SegmentSize: 10, FinalBlock: 999, HeadBlock: 1000}
+	plainEnv := t1env{SegmentSize: 10, FinalBlock: 999, HeadBlock: 1000}
 	t2 := func(ms *pbsubstreams.Modules, out string, stage uint32) *pbssinternal.ProcessRangeRequest {
 		return &pbssinternal.ProcessRangeRequest{Modules: ms, OutputModule: out, Stage: stage, MeteringConfig: "null://", BlockType: testBlockType,
 			StateStore: "memory://state", MergedBlocksStore: "memory://blocks", SegmentSize: 10, SegmentNumber: 1}
@@ -224,14 +205,28 @@ func corpus() []item {
 		{tier: 1, family: "corpus", expect: "reject", muts: []string{"map module whose only input has no oneof member set"}, env: plainEnv,
 			msg: &pbsubstreamsrpc.Request{OutputModule: "m", StopBlockNum: 10, Modules: &pbsubstreams.Modules{Binaries: bin, Modules: []*pbsubstreams.Module{mapMod("m", &pbsubstreams.Module_Input{})}}}},
 		{tier: 2, family: "corpus", expect: "reject", muts: []string{"well-formed single-map request, stage 1 (graph has 1 stage)"}, msg: t2(one, "m", 1)},
+		{tier: 2, family: "corpus", muts: []string{"map module without an output type (module.output absent)"},
+			msg: t2(&pbsubstreams.Modules{Binaries: bin, Modules: []*pbsubstreams.Module{{Name: "m", Kind: kindMap(), Inputs: []*pbsubstreams.Module_Input{srcInput(testBlockType)}}}}, "m", 0)},
+		{tier: 2, family: "corpus", muts: []string{"segment_size 2^64-1, segment_number 1: the segment's end wraps below its start"},
+			msg: func() *pbssinternal.ProcessRangeRequest {
+				r := t2(proto.Clone(one).(*pbsubstreams.Modules), "m", 0)
+				r.SegmentSize, r.SegmentNumber = math.MaxUint64, 1
+				return r
+			}()},
+		{tier: 2, family: "corpus", muts: []string{"store module, segment_size 1, segment_number 2^64-2: the last segment of the uint64 range"},
+			msg: func() *pbssinternal.ProcessRangeRequest {
+				ms := &pbsubstreams.Modules{Binaries: bin, Modules: []*pbsubstreams.Module{{Name: "s", Kind: &pbsubstreams.Module_KindStore_{KindStore: &pbsubstreams.Module_KindStore{UpdatePolicy: pbsubstreams.Module_KindStore_UPDATE_POLICY_SET, ValueType: "string"}}, Inputs: []*pbsubstreams.Module_Input{srcInput(testBlockType)}}}}
+				r := t2(ms, "s", 0)
+				r.SegmentSize, r.SegmentNumber = 1, math.MaxUint64-1
+				return r
+			}()},
 		{tier: 2, family: "corpus", muts: []string{"well-formed single-map request, stage 0"}, msg: t2(proto.Clone(one).(*pbsubstreams.Modules), "m", 0)},
 		{tier: 1, family: "corpus", muts: []string{"well-formed single-map request"}, env: plainEnv,
 			msg: &pbsubstreamsrpc.Request{OutputModule: "m", StopBlockNum: 10, Modules: proto.Clone(one).(*pbsubstreams.Modules)}},
 	}
 }
 
-func generate(c *fw.Case, i int) (it item, ok bool) {
-	r := c.R
+func generate(r *rand.Rand, counts map[string]int64, i int) (it item, ok bool) {
 	it.tier = 1 + i%2
 	tier := it.tier
 	switch x := r.Intn(100); {
@@ -271,7 +266,7 @@ func generate(c *fw.Case, i int) (it item, ok bool) {
 		}
 		b, err := proto.Marshal(base)
 		if err != nil {
-			c.Count("marshal_failed", 1)
+			counts["marshal_failed"]++
 			return it, false
 		}
 		it.wire = mutateBytes(r, b)
@@ -286,7 +281,117 @@ func generate(c *fw.Case, i int) (it item, ok bool) {
 	return it, true
 }
 
+// ---------------------------------------------------------------- the worker side: drive the child, judge its reports
+
+type childProc struct {
+	cmd    *exec.Cmd
+	events chan event
+	stderr *tailBuffer
+	dir    string
+}
+
+type tailBuffer struct {
+	mu  sync.Mutex
+	buf []byte
+}
+
+func (t *tailBuffer) Write(p []byte) (int, error) {
+	t.mu.Lock()
+	t.buf = append(t.buf, p...)
+	if len(t.buf) > 1<<20 {
+		t.buf = append(t.buf[:1<<18:1<<18], t.buf[len(t.buf)-(1<<18):]...)
+	}
+	t.mu.Unlock()
+	return len(p), nil
+}
+
+func (t *tailBuffer) String() string {
+	t.mu.Lock()
+	defer t.mu.Unlock()
+	return string(t.buf)
+}
+
+var childSeq int
+
+func scratchRoot() string {
+	if d := os.Getenv("VH_SCRATCH"); d != "" {
+		return d
+	}
+	return os.TempDir()
+}
+
+func startChild(c *fw.Case, from, to int, timeout time.Duration) (*childProc, error) {
+	exe, err := os.Executable()
+	if err != nil {
+		return nil, err
+	}
+	childSeq++
+	dir := filepath.Join(scratchRoot(), fmt.Sprintf("c17-%d", os.Getpid()), fmt.Sprintf("child-%d", childSeq))
+	spec, _ := json.Marshal(childSpec{ID: c.Spec.ID, Tier: c.Tier, Mode: c.Mode, Seed: c.Seed, Index: c.Index, From: from, To: to, TimeoutMs: timeout.Milliseconds(), Dir: dir})
+	cmd := exec.Command(exe, childArg, string(spec))
+	cp := &childProc{cmd: cmd, events: make(chan event, 16), stderr: &tailBuffer{}, dir: dir}
+	cmd.Stderr = cp.stderr
+	cmd.SysProcAttr = &syscall.SysProcAttr{Setpgid: true}
+	out, err := cmd.StdoutPipe()
+	if err != nil {
+		return nil, err
+	}
+	if err := cmd.Start(); err != nil {
+		return nil, err
+	}
+	go func() {
+		sc := bufio.NewScanner(out)
+		sc.Buffer(make([]byte, 1<<20), 1<<26)
+		for sc.Scan() {
+			var ev event
+			if json.Unmarshal(sc.Bytes(), &ev) == nil && ev.Ev != "" {
+				cp.events <- ev
+			}
+		}
+		close(cp.events)
+	}()
+	return cp, nil
+}
+
+// finish waits for the child (killing it if asked) and removes its directory.
+func (cp *childProc) finish(kill bool) error {
+	if kill {
+		syscall.Kill(-cp.cmd.Process.Pid, syscall.SIGKILL)
+	}
+	for range cp.events {
+	}
+	err := cp.cmd.Wait()
+	os.RemoveAll(cp.dir)
+	return err
+}
+
+var crashLine = regexp.MustCompile(`(?m)^(panic: .*|fatal error: .*|runtime: out of memory.*|SIGSEGV.*|unexpected fault address.*)$`)
+
+// crashSite: the innermost /repo function of the first goroutine trace in a crashed child's stderr.
+func crashSite(stderr string) string {
+	i := strings.Index(stderr, "\ngoroutine ")
+	if i < 0 {
+		return "?"
+	}
+	g := stderr[i+1:]
+	if j := strings.Index(g, "\n\n"); j >= 0 {
+		g = g[:j]
+	}
+	if f := repoFrames(g); len(f) > 0 {
+		return f[0]
+	}
+	return "?"
+}
+
+// confirmedHangs counts, per stage, the hangs this worker process has already reproduced: after two, a further
+// time-out in the same stage is recorded without spending another 60 s on reproducing it.
+var confirmedHangs = map[string]int{}
+
 func run(c *fw.Case) {
+	b := buildBatch(fw.CaseRand(c.Spec.ID, c.Tier, c.Mode, c.Seed, c.Index), c.Index)
+	for k, v := range b.counts {
+		c.Count(k, v)
+	}
 	// one witness per signature and case (the framework keeps at most 20 violations per case); every occurrence is counted
 	reported := map[string]bool{}
 	violation := func(sig, what string, w witness) {
@@ -297,177 +402,231 @@ func run(c *fw.Case) {
 		reported[sig] = true
 		c.Violation(sig, what, w)
 	}
-	var items []item
-	if c.Index == 0 {
-		items = corpus()
-	}
-	nCorpus := len(items)
-	for i := 0; i < batch; i++ {
-		it, ok := generate(c, i)
-		env := genEnv(c) // always drawn, so that the PRNG stream does not depend on the message
-		it.env = &env
-		if ok {
-			items = append(items, it)
+	mkWitness := func(it *item, res *result) witness {
+		orig, _ := it.decode()
+		w := witness{Tier: it.tier, Family: it.family, Mutations: it.muts, Request: toJSON(orig), WireSize: len(it.wire)}
+		if it.tier == 1 {
+			e := it.env
+			w.Env = &e
 		}
-	}
-	for i, it := range items {
-		tier, family, muts, wire := it.tier, it.family, it.muts, it.wire
-		var env t1env
-		if it.tier == 1 && it.env != nil {
-			env = *it.env
+		if res != nil {
+			w.Stack = res.Stack
+			w.Reached = res.Reached
 		}
-		c.Count("generated/"+family, 1)
+		return w
+	}
 
-		// through the wire: what the server decodes is what a client can encode
-		if wire == nil {
-			b, err := proto.Marshal(it.msg)
-			if err != nil {
-				c.Count("not_encodable", 1)
-				continue
-			}
-			wire = b
-		}
-		decode := func() (proto.Message, error) {
-			if tier == 1 {
-				m := &pbsubstreamsrpc.Request{}
-				return m, proto.Unmarshal(wire, m)
-			}
-			m := &pbssinternal.ProcessRangeRequest{}
-			return m, proto.Unmarshal(wire, m)
-		}
-		decoded, err := decode()
+	next := 0
+	for next < len(b.items) {
+		cp, err := startChild(c, next, len(b.items), firstTimeout)
 		if err != nil {
-			c.Count("wire_mutation_undecodable", 1)
-			continue
+			c.Inconclusive("cannot start the child process: " + err.Error())
+			return
 		}
-		c.Count(fmt.Sprintf("requests_tier%d", tier), 1)
-		c.Max("wire_bytes", int64(len(wire)))
-		c.Max("modules_in_request", int64(moduleCount(decoded)))
-		for _, m := range muts {
-			if family != "corpus" {
-				c.Distinct("mutation_kinds", fmt.Sprintf("%d/%s", tier, m))
-			}
-		}
-
-		mkWitness := func(o *outcome) witness {
-			orig, _ := decode()
-			w := witness{Tier: tier, Family: family, Mutations: muts, Request: toJSON(orig), WireSize: len(wire)}
-			if tier == 1 {
-				e := env
-				w.Env = &e
-			}
-			if o != nil {
-				w.Stack = trimStack(o.stack)
-				w.Reached = o.reached
-			}
-			return w
-		}
-		job := func(m proto.Message) func(ctx context.Context, o *outcome) {
-			return func(ctx context.Context, o *outcome) {
-				if tier == 1 {
-					runTier1(ctx, o, m.(*pbsubstreamsrpc.Request), env)
-				} else {
-					runTier2(ctx, o, m.(*pbssinternal.ProcessRangeRequest))
+		c.Count("child_processes", 1)
+		cur, terminal := -1, false
+		backstop := time.NewTimer(firstTimeout + 20*time.Second)
+	events:
+		for {
+			select {
+			case ev, ok := <-cp.events:
+				if !ok {
+					break events
 				}
+				backstop.Reset(firstTimeout + 20*time.Second)
+				it := &b.items[ev.I]
+				switch ev.Ev {
+				case "start":
+					cur = ev.I
+				case "done":
+					judge(c, it, ev.Res, violation, mkWitness)
+					next = ev.I + 1
+					cur = -1
+				case "memory":
+					terminal = true
+					next = ev.I + 1
+					w := mkWitness(it, nil)
+					w.Hung = ev.Dump
+					if len(it.wire) < 1<<20 {
+						violation("C17/memory/"+ev.Stage+" @"+ev.Fn, fmt.Sprintf("a %d-byte tier%d request made the process grow by %d MiB while in stage %s (in %s) and was still running", len(it.wire), it.tier, ev.Bytes>>20, ev.Stage, ev.Fn), w)
+					}
+				case "hang":
+					terminal = true
+					next = ev.I + 1
+					hang(c, b, ev, violation, mkWitness, judge)
+				}
+			case <-backstop.C:
+				// the child neither reports nor times out by itself: treat as a hang of the current request, without a dump
+				terminal = true
+				cp.finish(true)
+				if cur >= 0 {
+					next = cur + 1
+					violation("C17/child-wedged", fmt.Sprintf("the child process stopped reporting while running a tier%d request", b.items[cur].tier), mkWitness(&b.items[cur], nil))
+				} else {
+					next = len(b.items)
+					c.Inconclusive("child process stopped reporting between two requests")
+				}
+				break events
 			}
 		}
+		backstop.Stop()
+		werr := cp.finish(false)
+		if !terminal && cur >= 0 {
+			// the child died while running request cur: a panic outside the request goroutine, a fatal error, or a kill
+			it := &b.items[cur]
+			stderr := cp.stderr.String()
+			reason := fmt.Sprint(werr)
+			if m := crashLine.FindString(stderr); m != "" {
+				reason = m
+			}
+			w := mkWitness(it, nil)
+			w.Stderr = clip(stderr, 8000)
+			violation("C17/crash/"+fw.NormalizeMsg(reason)+" @"+crashSite(stderr), fmt.Sprintf("the process died while running a tier%d request: %s", it.tier, reason), w)
+			next = cur + 1
+		} else if !terminal && werr != nil && next < len(b.items) {
+			c.Inconclusive(fmt.Sprintf("child process failed between two requests: %v: %s", werr, clip(cp.stderr.String(), 500)))
+			return
+		}
+	}
+}
 
-		t0 := time.Now()
-		o, hungAt := execute(job(decoded), firstTimeout)
-		c.Max("slowest_request_ms", time.Since(t0).Milliseconds())
-		if o != nil && o.clientWentAway.Load() {
-			c.Count("requests_still_running_when_client_went_away", 1)
-			why := fmt.Sprintf("tier%d no error", tier)
-			if o.err != nil {
-				why = o.rejectedAt + ": " + fw.NormalizeMsg(o.err.Error())
-			}
-			c.Logf("request outlived the client (%s): %s", time.Since(t0), why)
-			c.Distinct("outcomes_after_client_went_away", why)
-			if o.panicStage == "" && !(o.err != nil && strings.Contains(o.err.Error(), "load full store") && strings.Contains(o.err.Error(), "context canceled")) {
-				// only the retry back-off on a missing store file is expected to take that long
-				c.Inconclusive(fmt.Sprintf("tier%d request ran for more than %s for an unexpected reason: %s", tier, clientPatience, why))
-			}
-		}
-		if o == nil {
-			if hungStages[hungAt] && confirmedHangs >= 2 {
-				c.Count("skipped_after_confirmed_hangs", 1)
-				continue
-			}
-			// reproduce alone
-			again, _ := decode()
-			o2, hungAt2 := execute(job(again), secondTimeout)
-			if o2 == nil {
-				confirmedHangs++
-				hungStages[hungAt2] = true
-				w := mkWitness(nil)
-				w.Hung = lastHangDump
-				violation("C17/hang/"+hungAt2, fmt.Sprintf("tier%d request still running in stage %s after %s (first run: stage %s after %s)", tier, hungAt2, secondTimeout, hungAt, firstTimeout), w)
-				continue
-			}
-			c.Inconclusive(fmt.Sprintf("request exceeded %s in stage %s once, finished when re-run alone", firstTimeout, hungAt))
-			o = o2
-		}
-		c.Count("requests_run", 1)
-		c.Max("bytes_allocated_by_one_request", int64(o.allocated))
-		c.Max("heap_growth_in_one_stage", o.memGrowth)
+type violationFunc func(sig, what string, w witness)
+type witnessFunc func(it *item, res *result) witness
 
-		for _, st := range o.reached {
-			c.Count("stage_completed/"+stageKey(tier, st), 1)
-		}
-		switch {
-		case o.panicStage != "":
-			c.Count("panics", 1)
-			sig := "C17/panic/" + o.panicStage + "/" + fw.NormalizeMsg(o.panicMsg) + " @" + o.panicFn
-			violation(sig, fmt.Sprintf("tier%d request made stage %s panic: %s (in %s)", tier, o.panicStage, o.panicMsg, o.panicFn), mkWitness(o))
-		case o.nilResult != "":
-			violation("C17/no-result-and-no-error/"+o.nilResult, fmt.Sprintf("stage %s returned a nil result and a nil error", o.nilResult), mkWitness(o))
-		case o.rejectedAt != "":
-			c.Count("rejected_at/"+stageKey(tier, o.rejectedAt), 1)
-			c.Logf("rejected tier%d %s: %s", tier, o.rejectedAt, fw.NormalizeMsg(o.err.Error()))
-			c.Distinct("rejection_reasons", o.rejectedAt+": "+fw.NormalizeMsg(o.err.Error()))
-			if family == "D-well-formed" {
-				c.Count("well_formed_rejected_in_its_environment", 1)
-				c.Distinct("well_formed_rejection_reasons", o.rejectedAt+": "+fw.NormalizeMsg(o.err.Error()))
+// hang handles a first time-out: reproduce the request alone in a fresh child under the longer watchdog.
+func hang(c *fw.Case, b *batch, ev event, violation violationFunc, mkWitness witnessFunc, judge func(*fw.Case, *item, *result, violationFunc, witnessFunc)) {
+	it := &b.items[ev.I]
+	sig := "C17/hang/" + ev.Stage + " @" + ev.Fn
+	if confirmedHangs[ev.Stage] >= 2 {
+		c.Count("occurrences/"+sig+" (not reproduced again: 2 already confirmed by this worker)", 1)
+		return
+	}
+	cp, err := startChild(c, ev.I, ev.I+1, secondTimeout)
+	if err != nil {
+		c.Inconclusive("cannot start the child process: " + err.Error())
+		return
+	}
+	c.Count("child_processes", 1)
+	backstop := time.NewTimer(secondTimeout + 20*time.Second)
+	defer backstop.Stop()
+	for {
+		select {
+		case ev2, ok := <-cp.events:
+			if !ok {
+				cp.finish(false)
+				c.Inconclusive(fmt.Sprintf("tier%d request exceeded %s in stage %s; the reproduction run died: %s", it.tier, firstTimeout, ev.Stage, clip(cp.stderr.String(), 300)))
+				return
 			}
-		default:
-			c.Count(fmt.Sprintf("accepted_through_all_stages_tier%d", tier), 1)
-			if family == "D-well-formed" {
-				c.Count("well_formed_accepted", 1)
+			switch ev2.Ev {
+			case "done":
+				cp.finish(false)
+				c.Inconclusive(fmt.Sprintf("tier%d request exceeded %s in stage %s (%s) once, finished in %d ms when re-run alone", it.tier, firstTimeout, ev.Stage, ev.Fn, ev2.Res.Ms))
+				judge(c, it, ev2.Res, violation, mkWitness)
+				return
+			case "memory":
+				cp.finish(false)
+				w := mkWitness(it, nil)
+				w.Hung = ev2.Dump
+				violation("C17/memory/"+ev2.Stage+" @"+ev2.Fn, fmt.Sprintf("a %d-byte tier%d request made the process grow by %d MiB while in stage %s (in %s)", len(it.wire), it.tier, ev2.Bytes>>20, ev2.Stage, ev2.Fn), w)
+				return
+			case "hang":
+				cp.finish(false)
+				confirmedHangs[ev.Stage]++
+				w := mkWitness(it, nil)
+				w.Hung = ev2.Dump
+				violation(sig, fmt.Sprintf("tier%d request still running in stage %s (in %s) after %s when run alone (first run: in %s after %s)", it.tier, ev2.Stage, ev2.Fn, secondTimeout, ev.Fn, firstTimeout), w)
+				return
 			}
+		case <-backstop.C:
+			cp.finish(true)
+			c.Inconclusive("reproduction child stopped reporting")
+			return
 		}
-		if it.expect == "reject" && o.panicStage == "" && o.rejectedAt == "" {
-			violation("C17/malformed-witness-accepted", fmt.Sprintf("hand-minimised malformed tier%d request %q went through every stage without an error", tier, muts), mkWitness(o))
+	}
+}
+
+// judge classifies the result of one request.
+func judge(c *fw.Case, it *item, o *result, violation violationFunc, mkWitness witnessFunc) {
+	tier, family, muts := it.tier, it.family, it.muts
+	c.Count(fmt.Sprintf("requests_tier%d", tier), 1)
+	c.Count("requests_run", 1)
+	c.Max("wire_bytes", int64(len(it.wire)))
+	if m, err := it.decode(); err == nil {
+		c.Max("modules_in_request", int64(moduleCount(m)))
+	}
+	if family != "corpus" {
+		for _, m := range muts {
+			c.Distinct("mutation_kinds", fmt.Sprintf("%d/%s", tier, m))
 		}
-		if it.expect == "reject" && o.rejectedAt != "" {
-			c.Count("malformed_witnesses_rejected_with_error", 1)
-			if c.WantSample() {
-				c.Sample(map[string]any{"malformed_witness": muts, "tier": tier, "rejected_at": o.rejectedAt, "error": o.err.Error()})
-			}
+	}
+	c.Max("slowest_request_ms", o.Ms)
+	c.Max("bytes_allocated_by_one_request", int64(o.Allocated))
+	c.Max("memory_growth_in_one_stage", o.MemGrowth)
+	if o.ClientWentAway {
+		c.Count("requests_still_running_when_client_went_away", 1)
+		why := fmt.Sprintf("tier%d no error", tier)
+		if o.Err != "" {
+			why = o.RejectedAt + ": " + fw.NormalizeMsg(o.Err)
 		}
-		if o.route != "" {
-			c.Count(fmt.Sprintf("route_tier%d/%s", tier, o.route), 1)
+		c.Logf("request outlived the client (%d ms): %s", o.Ms, why)
+		if o.PanicStage == "" && !(strings.Contains(o.Err, "load full store") && strings.Contains(o.Err, "context canceled")) {
+			// only the retry back-off on a missing store file is expected to take that long
+			c.Inconclusive(fmt.Sprintf("tier%d request ran for more than %s for an unexpected reason: %s", tier, clientPatience, why))
 		}
-		if o.sanitized {
-			c.Count("tier2_store_url_replaced_by_memory_store", 1)
+	}
+	for _, st := range o.Reached {
+		c.Count("stage_completed/"+stageKey(tier, st), 1)
+	}
+	switch {
+	case o.PanicStage != "":
+		c.Count("panics", 1)
+		sig := "C17/panic/" + o.PanicStage + "/" + fw.NormalizeMsg(o.PanicMsg) + " @" + o.PanicFn
+		violation(sig, fmt.Sprintf("tier%d request made stage %s panic: %s (in %s)", tier, o.PanicStage, o.PanicMsg, o.PanicFn), mkWitness(it, o))
+	case o.NilResult != "":
+		violation("C17/no-result-and-no-error/"+o.NilResult, fmt.Sprintf("stage %s returned a nil result and a nil error", o.NilResult), mkWitness(it, o))
+	case o.RejectedAt != "":
+		c.Count("rejected_at/"+stageKey(tier, o.RejectedAt), 1)
+		c.Logf("rejected tier%d %s: %s", tier, o.RejectedAt, fw.NormalizeMsg(o.Err))
+		c.Distinct("rejection_reasons", o.RejectedAt+": "+fw.NormalizeMsg(o.Err))
+		if family == "D-well-formed" {
+			c.Count("well_formed_rejected_in_its_environment", 1)
+			c.Distinct("well_formed_rejection_reasons", o.RejectedAt+": "+fw.NormalizeMsg(o.Err))
 		}
-		if o.memGrowth > 512<<20 && len(wire) < 1<<20 {
-			violation("C17/memory/"+o.memStage, fmt.Sprintf("a %d-byte tier%d request made memory grow by %d MiB in stage %s", len(wire), tier, o.memGrowth>>20, o.memStage), mkWitness(o))
+	default:
+		c.Count(fmt.Sprintf("accepted_through_all_stages_tier%d", tier), 1)
+		if family == "D-well-formed" {
+			c.Count("well_formed_accepted", 1)
 		}
-		passedValidation := len(o.reached) > 0 && !(o.rejectedAt == o.reached[0] && len(o.reached) == 1)
-		if passedValidation {
-			c.Count(fmt.Sprintf("passed_validation_tier%d", tier), 1)
-			c.Nontrivial(string(wire))
+	}
+	if it.expect == "reject" && o.PanicStage == "" && o.RejectedAt == "" {
+		violation("C17/malformed-witness-accepted", fmt.Sprintf("hand-minimised malformed tier%d request %q went through every stage without an error", tier, muts), mkWitness(it, o))
+	}
+	if it.expect == "reject" && o.RejectedAt != "" {
+		c.Count("malformed_witnesses_rejected_with_error", 1)
+		if c.WantSample() {
+			c.Sample(map[string]any{"malformed_witness": muts, "tier": tier, "rejected_at": o.RejectedAt, "error": o.Err})
 		}
-		if family == "B-structural-mutation" && i < nCorpus+6 && c.WantSample() {
-			s := map[string]any{"tier": tier, "mutations": muts, "stages_completed": o.reached}
-			if o.rejectedAt != "" {
-				s["rejected_at"], s["error"] = o.rejectedAt, o.err.Error()
-			}
-			if o.panicStage != "" {
-				s["panic_in"], s["panic"] = o.panicStage, o.panicMsg
-			}
-			c.Sample(s)
+	}
+	if o.Route != "" {
+		c.Count(fmt.Sprintf("route_tier%d/%s", tier, o.Route), 1)
+	}
+	if o.Sanitized {
+		c.Count("tier2_store_url_replaced_by_memory_store", 1)
+	}
+	if o.MemGrowth > memoryLimit && len(it.wire) < 1<<20 {
+		violation("C17/memory/"+o.MemStage, fmt.Sprintf("a %d-byte tier%d request made memory grow by %d MiB in stage %s", len(it.wire), tier, o.MemGrowth>>20, o.MemStage), mkWitness(it, o))
+	}
+	passedValidation := len(o.Reached) > 0 && !(o.RejectedAt == o.Reached[0] && len(o.Reached) == 1)
+	if passedValidation {
+		c.Count(fmt.Sprintf("passed_validation_tier%d", tier), 1)
+		c.Nontrivial(string(it.wire))
+	}
+	if family == "B-structural-mutation" && c.WantSample() && c.Index%7 == 0 {
+		s := map[string]any{"tier": tier, "mutations": muts, "stages_completed": o.Reached}
+		if o.RejectedAt != "" {
+			s["rejected_at"], s["error"] = o.RejectedAt, o.Err
 		}
+		c.Sample(s)
 	}
 }
 
